@@ -74,6 +74,14 @@ Check C15_pinned_cache_accepts_infinity_refuted :
   fst (cached_verify_pinned P H (empty_cache cap) (SIn (gzero (o2 P))) [(gzero (o1 P), m)]) = true /\
   aggregate_verify P (SIn (gzero (o2 P))) [(gzero (o1 P), m)] = false.
 Print Assumptions C15_pinned_cache_accepts_infinity_refuted.
+Check C15_strong_nondegeneracy :
+  forall (G1 G2 GT : Type) (P : pairing_ops G1 G2 GT), pairing_laws P ->
+  prime_order P ->
+  forall (pk : G1) (q : G2), pk <> gzero (o1 P) -> pair P pk q = gzero (oT P) -> q = gzero (o2 P).
+Print Assumptions C15_strong_nondegeneracy.
+Check C15_toy_prime_order :
+  prime_order toy.
+Print Assumptions C15_toy_prime_order.
 Check C15_premises_satisfiable :
   pairing_laws toy.
 Print Assumptions C15_premises_satisfiable.
